@@ -80,6 +80,7 @@ MonInitVal ==
     recIntr |-> FALSE,
     susInst |-> {},              \* C31: installed suspenders ("s1" watches signal "sig1", "s2" watches "sig2": SuspendBoolHigh)
     sigHigh |-> {},              \* signals whose last value is high
+    lastSig |-> "",              \* signal of the sig_put request in progress
     susUsed |-> FALSE,           \* suspenders are in play in this trace
     suspEver |-> FALSE,          \* a suspension has been in effect during this call (_start_suspender was executed)
     trips |-> 0,                 \* trips of installed suspenders not yet turned into a suspension
@@ -511,12 +512,12 @@ UpdSus(m, e) ==
                    !.trips = IF MonSigOf(name) \in m.sigHigh /\ m.st \in {"running", "suspending"} THEN @ + 1 ELSE @]
     [] op = "sus_remove" -> [m EXCEPT !.susInst = @ \ {name}, !.susEff = @ \ {name}]
     [] op = "sig_put" ->
-         IF v = 2 THEN m ELSE          \* (a value inside a suspender's dead band: neither trips nor releases)
-         IF v # 0 THEN [m EXCEPT !.sigHigh = @ \cup {name},
+         IF v = 2 THEN [m EXCEPT !.lastSig = name] ELSE          \* (a value inside a suspender's dead band: neither trips nor releases)
+         IF v # 0 THEN [m EXCEPT !.lastSig = name, !.sigHigh = @ \cup {name},
                                  !.susEff = IF CanTrip(m) THEN @ \cup {x \in m.susInst : MonSigOf(x) = name} ELSE @,
                                  !.trips = IF m.st \in {"running", "suspending"} /\ name \notin m.sigHigh
                                            THEN @ + Cardinality({x \in m.susInst : MonSigOf(x) = name}) ELSE @]
-         ELSE [m EXCEPT !.sigHigh = @ \ {name}, !.susEff = {x \in @ : MonSigOf(x) # name}]
+         ELSE [m EXCEPT !.lastSig = name, !.sigHigh = @ \ {name}, !.susEff = {x \in @ : MonSigOf(x) # name}]
     [] OTHER -> m
 
 UpdReq(m, e, s) ==
@@ -539,7 +540,14 @@ UpdReqRet(m, e, s2) ==
       last == m.reqs[ix]
       m1 == [m EXCEPT !.reqs[ix].out = out]
       acc == out = "ok"
-      m1x == ViolIf(m1, kind = "sus_remove" /\ ~acc, "C31:remove-failed")
+      \* a signal update whose delivery to the suspender raised (SuspenderBase.__make_event gives the loop 0.1 s of wall-clock time
+      \* to create its event and gives up otherwise -- a loaded machine, DESIGN.md 8.3): that trip did not happen
+      m1u == IF kind = "sig_put" /\ ~acc /\ Len(m.reqs) > 0 /\ last.kind = "sig_put1"
+             THEN [m1 EXCEPT !.sigHigh = @ \ {m.lastSig}, !.susEff = {x \in @ : MonSigOf(x) # m.lastSig},
+                             !.trips = IF @ >= Cardinality({x \in m.susInst : MonSigOf(x) = m.lastSig})
+                                       THEN @ - Cardinality({x \in m.susInst : MonSigOf(x) = m.lastSig}) ELSE 0]
+             ELSE m1
+      m1x == ViolIf(m1u, kind = "sus_remove" /\ ~acc, "C31:remove-failed")
       m2 == IF acc /\ kind \in {"abort", "stop", "halt"} /\ last.st # "idle"
             THEN (IF last.pc = "tail" THEN [m1x EXCEPT !.termLate = @ \cup {kind}] ELSE [m1x EXCEPT !.term = @ \cup {kind}])
             ELSE m1x
